@@ -921,6 +921,7 @@ static int Run()
     g &= need(layouts > 10, "too few multi-file layouts");
     g &= need(cls.count("block header f rejected") && cls.count("block magic f rejected") && cls.count("undo payload f rejected") && cls.count("undo checksum f rejected"), "an expected outcome class is missing");
     int rc = vx::finish();
-    if (!g && rc == 0) return 2;
+    // the gates describe a complete run; a run cut by the wall-clock deadline (exhaustive=false) is not a harness error
+    if (!g && rc == 0 && complete && !vx::deadline_reached()) return 2;
     return rc;
 }
